@@ -241,6 +241,29 @@ def obligations(tier, rng):
             for sc in (scheds[:2] if quick else scheds):
                 out.append(ob('C05', 'chunk', '%s/%s/grid=0,1,2,3/%s' % (fam, text(f), _sname(sc)), f=f, ns=[4, 4], sched=sc, pastify=pst, oracle='offline',
                               grid=[0, 1, 2, 3], max_paths=40000, wall=900))
+    # three levels: a bounded past operator over a bounded past operator with a > 0 (what pastify() produces for a bounded-future
+    # operator next to a sibling of larger horizon), alone and as the operand of a binary operation, six samples in two or more batches
+    H1 = lambda g: ('historically_t', g, 0, 1)
+    O1 = lambda g: ('once_t', g, 0, 1)
+    deep = [H1(('once_t', X, 1, 1)), O1(('once_t', X, 1, 1)), O1(('historically_t', X, 1, 1)), H1(('once_t', X, 2, 2)), H1(('historically_t', X, 1, 2)),
+            ('and', H1(('once_t', X, 1, 1)), Y), ('add', O1(('once_t', X, 1, 1)), Y), ('or', Y, H1(('once_t', X, 2, 2)))]
+    g6 = [0, 1, 2, 3, 4, 5]
+    for f in deep:
+        two = len(variables(f)) > 1
+        if quick and two:
+            # five samples, one schedule (1-2 min each on six samples: thorough tier)
+            if f[0] == 'or':
+                continue
+            parts = [[0, 1, 2], [3, 4]]
+            out.append(ob('C05', 'chunk', 'deep/%s/grid=0,1,2,3,4/%s' % (text(f), _sname([parts, parts])), f=f, ns=[5, 5], sched=[parts, parts], oracle='offline',
+                          grid=g6[:5], max_paths=40000, wall=900))
+            continue
+        for parts in ([[0, 1, 2], [3, 4, 5]], [[0, 1, 2, 3], [4], [5]], [[0], [1], [2], [3], [4], [5]]):
+            if quick and len(parts) == 3:
+                continue
+            sc = [parts, parts] if two else [parts]
+            out.append(ob('C05', 'chunk', 'deep/%s/grid=0,1,2,3,4,5/%s' % (text(f), _sname(sc)), f=f, ns=[6, 6] if two else [6], sched=sc, oracle='offline', grid=g6,
+                          max_paths=60000, wall=1500))
     res_ = out
     from .. import core as _core
     res_ = res_ + _core.make_twins(res_, [('F1/once[0,1](x)/n=3/0;1;2', 'ctwindow'), ('F1/(x) and (y)/n=[2, 2]/0,1|0,1', 'ctminmax'), ('F1/historically(x)/n=3/0,1;2', 'ctminmax')]) + _core.make_forkmode(res_, [])
